@@ -28,6 +28,7 @@ def build(p, seed):
     from xrfm import xRFM
     kw = dict(rfm_params=xc.rfm_params(p['kernel'], diag=p['diag'], iters=p['iters'], bandwidth_mode=p['bandwidth_mode']),
               max_leaf_size=p['max_leaf_size'], device='cpu', verbose=False, random_state=seed, n_trees=p['n_trees'],
+              n_tree_iters=p.get('n_tree_iters', 0),
               split_method=p['split_method'], refill_size=p['refill_size'], tuning_metric=p['tuning_metric'],
               classification_mode=p['classification_mode'], use_temperature_tuning=p['tuning'],
               split_temperature=p['split_temperature'])
@@ -246,7 +247,9 @@ def gen_cases(run):
     for rep in range(reps):
         for k, cfg in enumerate(drawing):
             p = dict(base, **cfg)
-            p.update(family='seed-after-consumption', seed=r.randint(0, 10 ** 6), dseed=r.randint(0, 10 ** 6))
+            # seed 0 is a legitimate seed (a falsy one): every other configuration of the first repetition uses it
+            p.update(family='seed-after-consumption', seed=0 if (rep == 0 and k % 2 == 0) else r.randint(1, 10 ** 6),
+                     dseed=r.randint(0, 10 ** 6))
             cons = [{'junk': 0, 'py': 0, 'np': 0, 'torch': 0}]
             for _ in range(2 if quick else 4):
                 cons.append({'junk': r.randint(0, 10 ** 6), 'py': r.choice([0, 1, 17, 10 ** 4]), 'np': r.choice([0, 3, 999, 10 ** 4]),
@@ -270,6 +273,11 @@ def gen_cases(run):
         dict(split_method='top_vector_agop_on_subset', task='bin', n=60, tuning=True, tuning_metric='accuracy', iters=0, d=5),
         dict(split_method='pca', task='multi', n=60, tuning=True, tuning_metric='accuracy', kernel='l1'),
         dict(split_method='random_pca', task='bin', n=70, tuning=True, tuning_metric='accuracy', max_leaf_size=30),
+        # iterated tree building (candidate trees are scored through the routing mode in force): needs >= 2 target columns
+        dict(split_method='random', task='reg2', n=80, tuning=True, n_tree_iters=2),
+        dict(split_method='random', task='reg2', n=70, tuning=True, n_tree_iters=2, d=3),
+        dict(split_method='random', task='reg2', n=90, tuning=True, n_tree_iters=1, kernel='l2_high_dim'),
+        dict(split_method='random_global_agop', task='reg2', n=80, tuning=True, n_tree_iters=2),
     ]
     for rep in range(reps):
         for k, cfg in enumerate(hist_cfgs):
